@@ -1,6 +1,7 @@
 package main
 
 import (
+	"context"
 	"encoding/binary"
 	"fmt"
 	"net"
@@ -101,6 +102,9 @@ func (sc *srvScen) tokenGrid(other *srvScen) {
 			if method == "put" {
 				s := int64(1)
 				q.seq = &s
+				if r.Intn(4) == 0 {
+					q.seq = nil // malformed put: the token must still be judged first
+				}
 			}
 			res := sc.send(from, q)
 			replied := res.obs.n > 0
@@ -296,6 +300,9 @@ func runC19(r *Run) {
 			sc.setBlocklist(bl)
 		}
 		sc.mixedFrom(bl, 25)
+		for j := 0; j < 3; j++ {
+			sc.blockedMidQuery(sc.addrFor(bl, false), sc.r.randID())
+		}
 		sc.outboundPaths(bl)
 		sc.emitTable()
 		r.Result.TracesValidated++
@@ -451,6 +458,60 @@ func (sc *srvScen) outboundPaths(bl *rangeList) {
 	sc.s.Bootstrap()
 	sc.resend.Store(int64(time.Hour))
 	sc.checkWrites(w0)
+}
+
+// A query is outstanding to addr; a blocklist covering addr is installed; then addr answers. The
+// answer must have no effect at all (no completed query, no table entry).
+func (sc *srvScen) blockedMidQuery(addr *net.UDPAddr, id [20]byte) {
+	if sc.dead || sc.isBlocked(addr.IP) {
+		return
+	}
+	w0 := sc.conn.numWrites()
+	done := make(chan dht.QueryResult, 1)
+	ctx, cancel := context.WithCancel(context.Background())
+	go func() { done <- sc.s.Query(ctx, dht.NewAddr(addr), "ping", dht.QueryInput{NumTries: 1}) }()
+	var d dgram
+	if !waitFor(func() bool {
+		for _, w := range sc.conn.writes()[w0:] {
+			if sameUDP(w.Addr, addr) {
+				if x := parseDgram(w); x.ok && x.y == "q" {
+					d = x
+					return true
+				}
+			}
+		}
+		return false
+	}, 5*time.Second) {
+		cancel()
+		return
+	}
+	sc.op(fmt.Sprintf("SRV reg %s %s", addrOp(addr), hx(d.t)), "ok")
+	old := sc.bl
+	nl := &rangeList{}
+	if old != nil {
+		nl.rs = append(nl.rs, old.rs...)
+	}
+	nl.rs = append(nl.rs, ipRange{addr.IP.To16(), addr.IP.To16()})
+	sort.Slice(nl.rs, func(i, j int) bool { return string(nl.rs[i].lo) < string(nl.rs[j].lo) })
+	sc.setBlocklist(nl)
+	q := &qspec{y: "r", t: d.t, rid: &id}
+	sc.inject(addr, q.bval().enc(), "m", q, false, "ok", "nf")
+	select {
+	case res := <-done:
+		if res.Err == nil {
+			sc.viol("C19", "query completed by a reply from an address that had been blocklisted meanwhile")
+			sc.viol("C06", "response from a blocked address completed a query")
+		}
+	case <-time.After(300 * time.Microsecond):
+	}
+	cancel()
+	select {
+	case <-done:
+	case <-time.After(5 * time.Second):
+		sc.viol("C14", "cancelled query did not return")
+	}
+	sc.op(fmt.Sprintf("SRV done %s %s", addrOp(addr), hx(d.t)), "ok")
+	sc.r.hist("inbound/blocked-while-query-outstanding")
 }
 
 // Every datagram written since w0: never to a blocked address; queries of a passive node carry ro=1.
